@@ -197,6 +197,9 @@ fn ws_list(r: &str) -> Option<String> {
     Some(jl(&r.split_whitespace().map(|s| s.to_string()).collect::<Vec<_>>()))
 }
 fn line_list(r: &str) -> Option<String> {
+    if r.is_empty() {
+        return Some(jl(&[]));
+    }
     Some(jl(&r.split('\n').map(|s| s.to_string()).collect::<Vec<_>>()))
 }
 fn sums_list(r: &str) -> Option<String> {
@@ -1069,7 +1072,8 @@ fn gen_arg(rng: &mut Rng, g: G, seq: usize) -> Arg {
             let n = if rng.chance(1, 8) { 10 + rng.below(15) } else if rng.chance(1, 12) { 0 } else { 1 + rng.below(3) };
             Arg::L((0..n).map(|_| w(rng)).collect())
         }
-        G::Lines => Arg::L((0..1 + rng.below(3)).map(|i| format!("l{seq}{i} {}", w(rng))).collect()),
+        // now and then no line at all
+        G::Lines => Arg::L((0..if rng.chance(1, 12) { 0 } else { 1 + rng.below(3) }).map(|i| format!("l{seq}{i} {}", w(rng))).collect()),
         G::Md5s | G::Sha1s | G::Sha256s | G::Sha512s => {
             let n = match g {
                 G::Md5s => 32,
@@ -1261,6 +1265,9 @@ impl Scenario for C15 {
                     let a = gen_arg(rng, row.gen, seq);
                     if row.gen == G::Bool && row.clears {
                         Arg::B(true)
+                    } else if row.accessor == "set_long_description" && matches!(&a, Arg::L(l) if l.is_empty()) {
+                        // an empty long description has no encoding of its own
+                        Arg::L(vec![format!("l{seq}")])
                     } else {
                         a
                     }
